@@ -524,7 +524,7 @@ def info_enum(e, out):
 
 # ---------------------------------------------------------------- element-level receivers
 
-ATTR_NAMES = ["my", "conf", "opt", "x_attr"]
+ATTR_NAMES = ["my", "conf", "opt", "x_attr", "ns::cfg"]
 outer = []          # dicts
 ff_names, fv_names = [], []
 
@@ -539,7 +539,7 @@ def gen_outer(idx, kind):
         return None
     k = rng.randint(1, 3)
     attr_names = rng.sample(ATTR_NAMES, k)
-    fwd = rng.choice([None, None, "all", "list", "empty"]) if kind != "FA" or True else None
+    fwd = rng.choice([None, None, "all", "list", "list2", "empty"])
     magic = []
     pool = {"FD": ["ident", "vis", "generics"], "FF": ["ident", "vis", "ty"], "FV": ["ident", "discriminant"],
             "FT": ["ident", "bounds", "default"], "FA": []}[kind]
@@ -590,6 +590,8 @@ def emit_outer(r, out):
         cattrs.append("forward_attrs")
     elif r["fwd"] == "list":
         cattrs.append("forward_attrs(doc, allow)")
+    elif r["fwd"] == "list2":
+        cattrs.append("forward_attrs(a::b, doc)")
     elif r["fwd"] == "empty":
         cattrs.append("forward_attrs()")
     if r["rule"]:
